@@ -80,6 +80,21 @@ func normCmp(x string, op token.Token, y string, xConst, yConst bool) string {
 // condFacts decomposes a branch condition taken with the given polarity into atomic facts.
 func condFacts(c ssa.Value, pol bool, ifi *ssa.If, out *[]Fact) {
 	c = stripConv(c)
+	// a boolean result of a helper the rules do not know, single or part of a tuple (`idx, ok := s.decode(b)`)
+	if ex, isEx := c.(*ssa.Extract); isEx && isBool(ex.Type()) {
+		if tc, isCall := ex.Tuple.(*ssa.Call); isCall && helperCallee(tc) != nil {
+			if in := helperValue(ex); in != nil {
+				if _, isC := in.(*ssa.Const); !isC {
+					n0 := len(*out)
+					condFacts(in, pol, ifi, out)
+					for i := n0; i < len(*out); i++ {
+						(*out)[i].via = append((*out)[i].via, tc)
+					}
+					return
+				}
+			}
+		}
+	}
 	switch v := c.(type) {
 	case *ssa.Call:
 		// predicate helper that is expanded (vinline.go): the fact is the helper's own condition
@@ -323,6 +338,60 @@ func (w *World) factsAtKD(at ssa.Instruction, kill bool, cdepth int) []Fact {
 			if !have[f.Expr] {
 				have[f.Expr] = true
 				out = append(out, f)
+			}
+		}
+	}
+	if par := fn.Parent(); par != nil && cdepth < 3 {
+		// a function literal handed directly to a call (`s.forEach(func(x) error {…})`): it runs during that call, so what
+		// holds where the literal is written holds inside it — unless the literal's own code writes what a fact reads
+		var uses []ssa.Instruction
+		direct := true
+		for _, b := range par.Blocks {
+			for _, ins := range b.Instrs {
+				for _, op := range ins.Operands(nil) {
+					if op == nil || *op == nil {
+						continue
+					}
+					switch x := (*op).(type) {
+					case *ssa.MakeClosure:
+						if x.Fn == ssa.Value(fn) {
+							if _, isCall := ins.(*ssa.Call); isCall {
+								uses = append(uses, ins)
+							} else if _, isMC := ins.(*ssa.MakeClosure); !isMC {
+								direct = false
+							}
+						}
+					case *ssa.Function:
+						if x == fn {
+							if _, isCall := ins.(*ssa.Call); isCall {
+								uses = append(uses, ins)
+							} else if _, isMC := ins.(*ssa.MakeClosure); !isMC {
+								direct = false
+							}
+						}
+					}
+				}
+			}
+		}
+		if direct && len(uses) == 1 {
+			have := map[string]bool{}
+			for _, f := range out {
+				have[f.Expr] = true
+			}
+			wr := w.fieldWrites(fn)
+			for _, f := range w.factsAtKD(uses[0], kill, cdepth+1) {
+				killed := false
+				if kill {
+					for _, l := range f.loads {
+						if fld := rootFieldOfLoad(l); fld != nil && wr[fld] {
+							killed = true
+						}
+					}
+				}
+				if !killed && !have[f.Expr] {
+					have[f.Expr] = true
+					out = append(out, f)
+				}
 			}
 		}
 	}
